@@ -67,7 +67,7 @@ class C16(Prop):
                    "and of definitions inside a library, added EDIF.identifier / EDIF.rename entries",
                    "a netlist the writer refuses on both attempts in the same way is not composable and is skipped",
                    "SimFS file objects flush on close and on __del__ like CPython's"]
-    runs = {"quick": 1500, "thorough": 40000}
+    runs = {"quick": 5000, "thorough": 120000}
 
     def configure(self, rng, tier):
         r = rng
